@@ -77,7 +77,7 @@ class ParallelMovPattern(RewritePattern):
         ):
             raise PassFailedException("All registers must be allocated")
 
-        # make a list of free registers for each type so we can add to it later
+        # the designated free registers of each register class
         free_registers: dict[
             type[riscv.RISCVRegisterType], list[riscv.RISCVRegisterType]
         ] = defaultdict(list)
@@ -116,19 +116,28 @@ class ParallelMovPattern(RewritePattern):
             riscv.RISCVRegisterType, SSAValue[riscv.RISCVRegisterType]
         ] = {}
         leaves = set(dst_types)
-        unprocessed_children = Counter[SSAValue]()
+        # number of unprocessed out edges of each register (several SSA values may
+        # live in the same register, so this is keyed by register, not by value)
+        unprocessed_children = Counter[riscv.RISCVRegisterType]()
 
         for idx, src, dst in zip(range(num_operands), srcs, dsts, strict=True):
-            # src.type points to something so it can't be a leaf
-            leaves.discard(src.type)
-
             if src.type == dst.type:
                 # Trivial case of moving register to itself.
                 # We can ignore all instances of this
+                leaves.discard(src.type)
                 results[idx] = src
+            elif dst.type == riscv.Registers.ZERO:
+                # Writes to the zero register are discarded, and it may be the
+                # destination of several moves: such a move is not an edge of the graph.
+                mvop = _insert_mv_op(
+                    rewriter, src, dst.type, op.input_widths.get_values()[idx]
+                )
+                results[idx] = mvop.results[0]
             else:
+                # src.type points to something so it can't be a leaf
+                leaves.discard(src.type)
                 src_by_dst_type[dst.type] = src
-                unprocessed_children[src] += 1
+                unprocessed_children[src.type] += 1
 
         for dst_type in dst_types:
             if dst_type not in leaves:
@@ -140,15 +149,11 @@ class ParallelMovPattern(RewritePattern):
                 # sanity check since we should only have 1 result per output
                 assert results[output_index[dst_type]] is None
                 results[output_index[dst_type]] = mvop.results[0]
-                unprocessed_children[src] -= 1
+                unprocessed_children[src.type] -= 1
                 # only continue up the tree if all children were processed
-                if unprocessed_children[src]:
+                if unprocessed_children[src.type]:
                     break
                 dst_type = src.type
-
-            # if dst is a register that has no input, we can use it as a free register.
-            if dst_type not in src_by_dst_type:
-                free_registers[type(dst_type)].append(dst_type)
 
         # If we have a cycle in the graph, all trees pointing into the cycle cannot
         # enter the cycle because it will have an unprocessed node from its previous
@@ -176,18 +181,19 @@ class ParallelMovPattern(RewritePattern):
                     out = srcs[idx]
                     inp = src_by_dst_type[out.type]
 
-                    while inp.type != out.type:
+                    while inp.type != src_types[idx]:
                         # we know these are ints since input and output are of the same type
                         inp = cast(SSAValue[riscv.IntRegisterType], inp)
                         out = cast(SSAValue[riscv.IntRegisterType], out)
                         nw_out, nw_inp = _insert_swap_ops(rewriter, inp, out)
-                        # after the swap, the input is in the right place, the input's input
-                        # needs to be moved to the new output
-                        results[output_index[nw_inp.type]] = nw_inp
-                        inp = src_by_dst_type[inp.type]
-                        out = nw_out
+                        # after the swap, the output register holds its final value and
+                        # the input register holds the value that travels backwards along
+                        # the cycle, so the swap continues from the input register
+                        results[output_index[nw_out.type]] = nw_out
+                        out = nw_inp
+                        inp = src_by_dst_type[out.type]
 
-                    results[output_index[src_types[idx]]] = out
+                    results[output_index[out.type]] = out
                     continue
 
                 # Break the cycle by using free register
